@@ -70,6 +70,20 @@ class _Abstract(ast.NodeTransformer):
     def __init__(self, locals_, var):
         self.l, self.v = locals_, var
 
+    def visit_IfExp(self, node):
+        # canonical arm order: the test in positive form (`a if not t else b` == `b if t else a`)
+        self.generic_visit(node)
+        t, a, b = node.test, node.body, node.orelse
+        changed = True
+        while changed:
+            changed = False
+            if isinstance(t, ast.UnaryOp) and isinstance(t.op, ast.Not):
+                t, a, b, changed = t.operand, b, a, True
+            elif isinstance(t, ast.Compare) and len(t.ops) == 1 and isinstance(t.ops[0], (ast.IsNot, ast.NotEq, ast.NotIn)):
+                pos = {ast.IsNot: ast.Is, ast.NotEq: ast.Eq, ast.NotIn: ast.In}[type(t.ops[0])]()
+                t, a, b, changed = ast.Compare(left=t.left, ops=[pos], comparators=t.comparators), b, a, True
+        return ast.copy_location(ast.IfExp(test=t, body=a, orelse=b), node)
+
     def visit_Name(self, node):
         if node.id == self.v:
             return ast.copy_location(ast.Name(id="$v", ctx=node.ctx), node)
